@@ -219,3 +219,10 @@ func lineTokens(line string) []lexer.TokenType {
 		out = append(out, t.Type)
 	}
 }
+
+func tail(s string, n int) string {
+	if len(s) > n {
+		return s[len(s)-n:]
+	}
+	return s
+}
